@@ -9,6 +9,7 @@
 package sim
 
 import (
+	"github.com/relab/hotstuff/verifx/common"
 	"math/big"
 
 	bls12 "github.com/kilic/bls12-381"
@@ -630,6 +631,16 @@ func (t *tap) Sign(m []byte) (hotstuff.QuorumSignature, error) {
 	}
 	cl.Signs = append(cl.Signs, rec)
 	return t.Base.Sign(m)
+}
+
+// Verdict is what a property function returns: a failure found in a run that a harness guard cut short (an event loop that
+// did not quiesce within the tick guard, a proposer released by the wall-clock watchdog on a loaded machine) decides nothing.
+func (cl *Cluster) Verdict(prop string, r common.Result) common.Result {
+	if cl != nil && cl.Inconclusive != "" && r.Err != "" {
+		common.Get(prop).Inconclusive(cl.Inconclusive)
+		return common.OK(false, "", "inconclusive")
+	}
+	return r
 }
 
 // ---- running --------------------------------------------------------------------------------------------------
